@@ -869,7 +869,7 @@ func c14ReadersVsReorg(r *simrt.Run, w *nomsim.World, wl *nomsim.Workload) {
 		if b.BlockType == nom.BlockTypeContractSend {
 			continue
 		}
-		if err := ref.Bridge.AddAccountBlocks([]*nom.AccountBlock{b}); err != nil {
+		if err := ref.Bridge.AddAccountBlocks([]*nom.AccountBlock{b}); err != nil && !poolPriorityRefusal(err) {
 			r.Fail("pool-trace", "unacceptable-block", "block %v/%d left in the observer's pool is refused by a fresh node: %v", b.Address, b.Height, err)
 		}
 	}
